@@ -87,6 +87,8 @@ type VC struct {
 	consts     []modelConst
 	pre        []string
 	frameSk    map[string]string
+	specInst   int
+	nnMaps     map[string]bool
 	frameLocs  []modLoc
 	pure       bool
 }
@@ -105,6 +107,10 @@ type frame struct {
 	vars   map[string][]varDef
 	iters  map[*ssa.Range]iterInfo
 	stack  []string
+	errCalls []pendingErr
+	loopEntry map[*ssa.BasicBlock]Heap
+	loopExit  map[*ssa.BasicBlock]Heap
+	loopOrds  map[*ssa.BasicBlock]int
 }
 
 type varDef struct {
@@ -132,6 +138,14 @@ type retInfo struct {
 	heap  Heap
 	vals  []Val
 	pos   token.Pos
+	block *ssa.BasicBlock
+	errs  []pendingErr
+}
+
+// pendingErr: error result of a call made on the way to a return
+type pendingErr struct {
+	term, reach, what string
+	block            *ssa.BasicBlock
 }
 
 func (vc *VC) errorf(format string, a ...interface{}) {
@@ -340,6 +354,48 @@ func (vc *VC) instFrames(key, ref string) {
 	for _, fa := range vc.frames[key] {
 		vc.assert(fmt.Sprintf("(=> (< %s %s) (= (select %s %s) (select %s %s)))", ref, fa.bound, fa.knew, ref, fa.chain, ref))
 	}
+}
+
+// splitFields: struct-valued fields whose address escapes into first-class pointers. Such a field
+// lives in a cell of its own at reference sub(base) (an injective function of the enclosing cell's
+// reference), so that &base.Field is an ordinary pointer. Sound because every access to a field of a
+// heap struct goes through FieldAddr, and the enclosing structs are never copied by value.
+var splitFields = map[string]bool{"Plugin.Imports": true}
+
+// extend returns the location of field idx inside l.
+func (vc *VC) extend(l *Loc, idx int) *Loc {
+	nl := *l
+	nl.Path = append(append([]int{}, l.Path...), idx)
+	t := vc.locType(l)
+	if n, ok := t.(*types.Named); ok {
+		if st, ok := n.Underlying().(*types.Struct); ok && idx < st.NumFields() {
+			key := n.Obj().Name() + "." + st.Field(idx).Name()
+			if splitFields[key] && l.Kind == LCell && len(l.Path) == 0 {
+				fn := q("sub:" + key)
+				inv := q("subinv:" + key)
+				vc.S.declare("sub:"+key, fmt.Sprintf("(declare-fun %s (Int) Int)", fn))
+				vc.S.declare("subinv:"+key, fmt.Sprintf("(declare-fun %s (Int) Int)", inv))
+				ref := fmt.Sprintf("(%s %s)", fn, l.Ref)
+				vc.assume("true", fmt.Sprintf("(and (> %s 0) (= (%s %s) %s))", ref, inv, ref, l.Ref))
+				return &Loc{Kind: LCell, Ref: ref, Cell: st.Field(idx).Type()}
+			}
+		}
+	}
+	return &nl
+}
+
+func isSplitTarget(t types.Type) bool {
+	n, ok := t.(*types.Named)
+	if !ok {
+		return false
+	}
+	for k := range splitFields {
+		// the field type's name equals the field name for the configured pairs (Plugin.Imports Imports)
+		if strings.HasSuffix(k, "."+n.Obj().Name()) {
+			return true
+		}
+	}
+	return false
 }
 
 func (vc *VC) locType(l *Loc) types.Type {
@@ -581,7 +637,7 @@ func (vc *VC) pos(fr *frame, p token.Pos) string {
 
 func (vc *VC) newFrame(fn *ssa.Function, prefix string, depth int, stack []string) *frame {
 	fr := &frame{fn: fn, vals: map[ssa.Value]Val{}, prefix: prefix, depth: depth, vars: map[string][]varDef{},
-		iters: map[*ssa.Range]iterInfo{}, stack: stack}
+		iters: map[*ssa.Range]iterInfo{}, stack: stack, loopEntry: map[*ssa.BasicBlock]Heap{}, loopExit: map[*ssa.BasicBlock]Heap{}, loopOrds: map[*ssa.BasicBlock]int{}}
 	for _, b := range fn.Blocks {
 		for _, ins := range b.Instrs {
 			if d, ok := ins.(*ssa.DebugRef); ok && d.Object() != nil {
@@ -729,7 +785,7 @@ func (vc *VC) run(fr *frame, entry state) []retInfo {
 				for _, r := range x.Results {
 					vals = append(vals, vc.get(fr, r))
 				}
-				rets = append(rets, retInfo{st.reach, st.heap.clone(), vals, x.Pos()})
+				rets = append(rets, retInfo{st.reach, st.heap.clone(), vals, x.Pos(), b, append([]pendingErr{}, fr.errCalls...)})
 			case *ssa.Panic:
 				vc.oblige("panic", "explicit panic unreachable", nil, vc.pos(fr, x.Pos()), st.reach, "false")
 			default:
@@ -737,6 +793,10 @@ func (vc *VC) run(fr *frame, entry state) []retInfo {
 			}
 		}
 		endState[b] = st
+		if isLoop {
+			fr.loopExit[b] = st.heap.clone()
+			fr.loopOrds[b] = loopOrd[b]
+		}
 
 		// back edges out of b: check loop invariants
 		for i, s := range b.Succs {
